@@ -22,7 +22,7 @@ MICRO = ("micro-universe: every project of 2-3 sub-slot tasks (efforts 10..90 mi
 REG = {
     "C01": _sched("C01", MICRO + "random sub-slot/contention projects (all resolutions 5..60 min, ASAP+ALAP, teams, alternatives) + mechanism-free core "
                   "dialect; non-trivial = at least one (resource,slot) shared by >=2 tasks; distinct = (resolution, mode, set of "
-                  "<#tasks sharing, portion kinds full/anchored/free, team involved?, directions> slot patterns, #shared slots)", 6000, 120000, 100, 600, ["monitor:book", "shared-slots"]),
+                  "<#tasks sharing, portion kinds full/anchored/free, team involved?, directions> slot patterns, #shared slots)", 6000, 120000, 100, 300, ["monitor:book", "shared-slots"]),
     "C02": _sched("C02", "hostile-calendar projects: aligned stratum (any violation is new) and non-aligned stratum (slot-start sampling is the "
                   "only accepted mechanism); non-trivial = booked portions on a resource with own hours/zone/leave; distinct = (resolution, mode, "
                   "zones of booked resources, vacation?, leaves?, cross-midnight?, start month)", 9000, 100000, 100, 600,
@@ -44,7 +44,7 @@ REG = {
                   "with one unlimited resource; non-trivial = at least one empty slot examined between bound and end; distinct = (mode, "
                   "resolution, #empty slots bucket, #tasks, shifts?, zones?)", 9000, 100000, 100, 600, ["tasks-checked", "empty-slots-examined"]),
     "C10": _sched("C10", "task trees depth<=5 incl. milestone-only containers and unschedulable leaves; non-trivial = at least one container; "
-                  "distinct = (depth, #containers, any unscheduled leaf?, any scheduled leaf?, mode)", 8000, 90000, 40, 150,
+                  "distinct = (depth, #containers, any unscheduled leaf?, any scheduled leaf?, mode)", 8000, 90000, 40, 90,
                   ["containers-checked", "monitor:pick"]),
     "C07": dict(module="vlib.props.c07", level="exploration",
                 rule="(a) every project of the small universe (<=3 leaf tasks x effort {1,2} slots x priority {low,high} x every labelled DAG x "
